@@ -1,4 +1,10 @@
-(* C07 — tensor products and embeddings respect subsystem structure: property theorems only. *)
+(* C07 — tensor products and embeddings respect subsystem structure: property theorems only.
+   Model/C07_Tensor.v has two modes.  [Fixed] is quara AFTER the repairs fixes/C07-left-permutation-matrix-size-product and
+   fixes/C07-mprocess-tensor-outcome-layout; it is the model the harness executes ([eval_fast], [calc_perm_map], [mp_slot Fixed])
+   and compares with the implementation, and every positive theorem below covers it for ANY number of subsystems.
+   [Coded] is the code AS IT WAS BEFORE those repairs; the positive theorems cover it only up to three subsystems (where sum and
+   product of the neighbouring sizes coincide) and the [..._refuted] theorems show that it fails from four subsystems on /
+   for the measurement-process outcome layout. *)
 From Coq Require Import Arith List ZArith Lia.
 From QV.Core Require Import OF Sums Mat QcOF.
 From QV.Model Require Import C07_Tensor.
@@ -46,7 +52,8 @@ Theorem C07_adjacent_swap_vec : forall (R : CR) (pre : list (@rfac R)) a b post,
 Proof. intros R. exact (@swap_col R). Qed.
 Print Assumptions C07_adjacent_swap_vec.
 
-(* the faithful model (head / tail sizes = SUMS of the neighbouring sizes, as coded) is refuted:
+(* the model of the code AS CODED BEFORE fix C07-left-permutation-matrix-size-product (mode [Coded]: head / tail sizes = SUMS of
+   the neighbouring sizes) is refuted:
    (a) four subsystems of size 4 with names 1 2 3 0: the matrix has dimension 128 instead of 256 and the matmul raises, for every fuel,
        while the corrected sizes give a matrix;
    (b) sizes 1,2,2,2,3,3 swapped at position 3: the coded dimension is right (3*4*6 = 72) and the matrix is a wrong permutation:
@@ -136,6 +143,28 @@ Theorem C07_eval_total : forall (R : CR) k md fuel (d : @dtree R), dwf d -> kind
 Proof. intros R. exact (@eval_total R). Qed.
 Print Assumptions C07_eval_total.
 
+(* ---- the EXECUTED model: the harness runs [eval_fast] (index maps instead of permutation matrices, closed form of the HS
+   re-indexing, memoised with [vfreeze]).  One step returns the same error code / the same subsystem data and an entrywise
+   equal matrix as the specification-level [tp_obj]; hence the two theorems above hold verbatim for [eval_fast]. *)
+From QV.Exec Require Import Base.
+From QV.Proofs Require Import C07_Fast.
+Theorem C07_tp_obj_fast_agrees : forall (R : CR) memo k md fuel (o1 o2 : @robj R) items1 items2, memo_ok memo ->
+  denotes o1 items1 -> denotes o2 items2 -> kind_ok k (map snd (items1 ++ items2)) ->
+  prel (tp_obj k md fuel o1 o2) (tp_obj_fast memo k md fuel o1 o2).
+Proof. intros R. exact (@tp_obj_fast_rel R). Qed.
+Print Assumptions C07_tp_obj_fast_agrees.
+Theorem C07_eval_fast_sound : forall (R : CR) k md fuel (d : @dtree R) o, dwf d -> kind_ok k (map snd (ditems d)) ->
+  (md = Fixed \/ length (ditems d) <= 3)%nat ->
+  eval_fast (vfreeze 0%nat) k md fuel (erase d) = POk o -> exists items, Permutation (ditems d) items /\ denotes o items.
+Proof. intros R k md fuel. exact (@eval_fast_sound R (vfreeze 0%nat) k md fuel vfreeze_memo_ok). Qed.
+Print Assumptions C07_eval_fast_sound.
+Theorem C07_eval_fast_total : forall (R : CR) k md fuel (d : @dtree R), dwf d -> kind_ok k (map snd (ditems d)) ->
+  NoDup (map fst (ditems d)) -> (md = Fixed \/ length (ditems d) <= 3)%nat ->
+  (length (ditems d) * length (ditems d) <= fuel)%nat ->
+  exists o, eval_fast (vfreeze 0%nat) k md fuel (erase d) = POk o.
+Proof. intros R k md fuel. exact (@eval_fast_total R (vfreeze 0%nat) k md fuel vfreeze_memo_ok). Qed.
+Print Assumptions C07_eval_fast_total.
+
 (* product statistics: <a (x) b, c (x) d> = <a, c> <b, d> ; in general ((x) V_k)((x) x_k) evaluated at the row-major
    position of a multi-index (shape = the local outcome counts, as Povm.nums_local_outcomes reports) is the product of
    the local values (V_k x_k)[idx_k] *)
@@ -149,9 +178,10 @@ Theorem C07_product_statistics : forall (R : CR) (fs : list (@rfac R)) (xs : lis
 Proof. intros R. exact (@product_statistics R). Qed.
 Print Assumptions C07_product_statistics.
 
-(* MProcess (x) MProcess: the reported shape is (n1, n2) (row-major access), the loops store the pair (i1, i2) at i2*n1 + i1.
-   With the corrected loop order the layout is the reported one; as coded it is the layout of shape (n2, n1); refuted for
-   3 x 2 outcomes at (0, 1); with equal counts the operands' outcomes are exchanged. *)
+(* MProcess (x) MProcess: the reported shape is (n1, n2) (row-major access).  Repaired loop order (mode [Fixed], the executed
+   model): the pair (i1, i2) sits where the reported shape says.  AS CODED BEFORE fix C07-mprocess-tensor-outcome-layout (mode
+   [Coded]) the loops stored the pair (i1, i2) at i2*n1 + i1, the layout of shape (n2, n1): refuted for 3 x 2 outcomes at (0, 1);
+   with equal counts the operands' outcomes were exchanged. *)
 Theorem C07_mprocess_layout_fixed : forall n1 n2 i1 i2, (i1 < n1)%nat -> (i2 < n2)%nat ->
   mp_slot Fixed n1 n2 (rmaj [n1; n2] [i1; i2]) = (i1, i2).
 Proof. exact mp_layout_fixed. Qed.
@@ -168,3 +198,101 @@ Theorem C07_mprocess_layout_equal_counts_exchanged : forall n i1 i2, (i1 < n)%na
   mp_slot Coded n n (rmaj [n; n] [i1; i2]) = (i2, i1).
 Proof. exact mp_layout_equal_counts. Qed.
 Print Assumptions C07_mprocess_layout_equal_counts_exchanged.
+
+(* ---- embedding a qutrit operation into two qubits:  X |-> Pi (X (+) c I) Pi^T  with the permutation Pi built by
+   _permutation_matrix_from_qutrits_to_qubits ([emb_perm]) and c = 0 (states), 1/m (POVM elements), 1/sqrt(#Kraus) (Kraus matrices).
+   All statements hold for every block size n3, padding k and every bijection s (t its inverse); [emb_perm n] is one for
+   n = 1, 2, 3 qutrits (by evaluation; not proved for every n). *)
+From QV.Core Require Import Psd.
+From QV.Model Require Import C07_Embed.
+From QV.Proofs Require Import C07_Embed.
+
+(* the literal  perm_matrix @ np.block(...) @ perm_matrix.T  is the index-map form that is executed *)
+Theorem C07_embed_is_index_map : forall (R : CR) n4 n3 s t c (M : @mat R), bij n4 s t ->
+  meq n4 n4 (embed_mat n4 n3 s c M) (embed_fast n3 s c M).
+Proof. intros R. exact (@embed_fast_eq R). Qed.
+Print Assumptions C07_embed_is_index_map.
+(* multiplicative: emb_c1(A) emb_c2(B) = emb_(c1 c2)(A B) *)
+Theorem C07_embed_multiplicative : forall (R : CR) n3 k s t c1 c2 (A B : @mat R), bij (n3 + k) s t ->
+  meq (n3 + k) (n3 + k) (mmul (n3 + k) (embed_fast n3 s c1 A) (embed_fast n3 s c2 B)) (embed_fast n3 s (cmul R c1 c2) (mmul n3 A B)).
+Proof. intros R. exact (@embed_mmul R). Qed.
+Print Assumptions C07_embed_multiplicative.
+(* trace: tr emb_c(A) = tr A + k c   (states: c = 0, trace preserved) *)
+Theorem C07_embed_trace : forall (R : CR) n3 k s t c (A : @mat R), bij (n3 + k) s t ->
+  mtrace (n3 + k) (embed_fast n3 s c A) = cadd R (mtrace n3 A) (sumn k (fun _ => c)).
+Proof. intros R. exact (@embed_trace R). Qed.
+Print Assumptions C07_embed_trace.
+(* outcome statistics of embedded inputs: tr(emb_c(E) emb_0(rho)) = tr(E rho) for every padding coefficient c *)
+Theorem C07_embed_statistics : forall (R : CR) n3 k s t cE (E rho : @mat R), bij (n3 + k) s t ->
+  mtrace (n3 + k) (mmul (n3 + k) (embed_fast n3 s cE E) (embed_fast n3 s (c0 R) rho)) = mtrace n3 (mmul n3 E rho).
+Proof. intros R. exact (@embed_statistics R). Qed.
+Print Assumptions C07_embed_statistics.
+(* an embedded Kraus pair acts on an embedded input as the original pair: emb_c(K) emb_0(rho) emb_c'(K') = emb_0(K rho K') *)
+Theorem C07_embed_kraus_action : forall (R : CR) n3 k s t c c' (K rho K' : @mat R), bij (n3 + k) s t ->
+  meq (n3 + k) (n3 + k)
+    (mmul (n3 + k) (mmul (n3 + k) (embed_fast n3 s c K) (embed_fast n3 s (c0 R) rho)) (embed_fast n3 s c' K'))
+    (embed_fast n3 s (c0 R) (mmul n3 (mmul n3 K rho) K')).
+Proof. intros R. exact (@embed_kraus_action R). Qed.
+Print Assumptions C07_embed_kraus_action.
+(* trace preservation: sum_k A_k B_k = I (A_k = K_k^dagger, B_k = K_k) and m c' c = 1  ==>  the embedded set sums to I as well *)
+Theorem C07_embed_tp : forall (R : CR) n3 k s t c' c (l : list (@mat R * @mat R)), bij (n3 + k) s t ->
+  meq n3 n3 (sum_prod n3 l) mid -> nsum (length l) (cmul R c' c) = c1 R ->
+  meq (n3 + k) (n3 + k) (sum_prod (n3 + k) (map (fun p => (embed_fast n3 s c' (fst p), embed_fast n3 s c (snd p))) l)) mid.
+Proof. intros R. exact (@embed_tp R). Qed.
+Print Assumptions C07_embed_tp.
+(* positive semidefiniteness: block diagonal + permutation congruence preserves PSD when the padding coefficient c is real and
+   non-negative (0 for states, 1/m for POVM elements).  [C07_embed_psd]: complex Hermitian matrices, PSD through the real
+   symmetric embedding [[A, -B], [B, A]] of Model/HermEmbed.v (the definition all physicality verdicts use);
+   [C07_embed_psd_real]: the real symmetric case. *)
+From QV.Core Require Import Cplx.
+From QV.Model Require Import HermEmbed.
+From QV.Proofs Require Import C07_EmbedHerm.
+Theorem C07_embed_psd : forall (F : OF) n3 k s t c (M : @mat (CF F)), bij (n3 + k) s t ->
+  PSD F (n3 + n3) (embed F n3 M) -> kle F (c0 F) c ->
+  PSD F ((n3 + k) + (n3 + k)) (embed F (n3 + k) (@embed_fast (CF F) n3 s (zof c) M)).
+Proof. exact embed_psd_herm. Qed.
+Print Assumptions C07_embed_psd.
+Theorem C07_embed_psd_real : forall (F : OF) n3 k s t c (M : @mat F), bij (n3 + k) s t -> PSD F n3 M -> kle F (c0 F) c ->
+  PSD F (n3 + k) (embed_fast n3 s c M).
+Proof. exact embed_psd. Qed.
+Print Assumptions C07_embed_psd_real.
+(* the permutation of the code is a bijection of [0, 4^n), and it sends the qubit basis states without a digit 3 to the qutrit
+   basis states in order (base-3 reading of the base-4 digits), for n = 1, 2, 3 qutrits (finite evaluation, bound in the statement) *)
+Theorem C07_embed_perm_bijective_upto3 : forall n, (1 <= n <= 3)%nat -> bij (3 ^ n + (4 ^ n - 3 ^ n)) (emb_perm n) (emb_inv n).
+Proof. exact emb_perm_bij_upto3. Qed.
+Print Assumptions C07_embed_perm_bijective_upto3.
+Theorem C07_embed_perm_qutrit_states_upto3 : forall n, (1 <= n <= 3)%nat ->
+  forallb (fun a => if has3 n a then (3 ^ n <=? emb_perm n a)%nat else Nat.eqb (emb_perm n a) (base3 n a)) (seq 0 (4 ^ n)) = true.
+Proof. exact emb_perm_qutrit_states_upto3. Qed.
+Print Assumptions C07_embed_perm_qutrit_states_upto3.
+
+(* ================================================================== Examples: the hypotheses are satisfiable *)
+From QV.Proofs Require Import C07_Examples.
+(* four coefficient vectors of length 3 named 1, 2, 3, 0 in argument order, grouped (1 (x) 2) (x) (3 (x) 0): every hypothesis of
+   C07_eval_fast_sound / C07_eval_fast_total (and of C07_eval_sound / C07_eval_total) holds, the names are NOT ascending ... *)
+Example C07_example_tree_hypotheses :
+  dwf ex_tree /\ kind_ok KVec (map snd (ditems ex_tree)) /\ NoDup (map fst (ditems ex_tree)) /\
+  map fst (ditems ex_tree) = [1; 2; 3; 0]%Z /\ (length (ditems ex_tree) * length (ditems ex_tree) <= 16)%nat.
+Proof. exact ex_tree_hyps. Qed.
+(* ... the repaired model returns the object on subsystems 0 1 2 3 ... *)
+Example C07_example_tree_repaired : exists o, eval_fast (vfreeze 0%nat) KVec Fixed 16 (erase ex_tree) = POk o /\ o_names o = [0; 1; 2; 3]%Z.
+Proof. exact ex_tree_fixed_names. Qed.
+(* ... and the model of the code as it was before fix C07-left-permutation-matrix-size-product raises on the same call *)
+Example C07_example_tree_before_fix_raises : @eval Qc_CR KVec Coded 16 (erase ex_tree) = PErr 1.
+Proof. exact ex_tree_coded_raises. Qed.
+(* C07_perm_sorts_vec / C07_perm_terminates: names 1 2 3 0, sizes 4 4 4 4, corrected sizes, fuel 16 *)
+Example C07_example_perm : (inversions [1; 2; 3; 0]%Z <= 16)%nat /\ exists Q, @calc_perm_matrix Qc_CR Fixed 16 [1; 2; 3; 0]%Z [4; 4; 4; 4]%nat = POk Q.
+Proof. split; [vm_compute; lia|exact (fixed_no_crash Qc_CR)]. Qed.
+(* embedding: [emb_perm 1] is a bijection of [0, 4); the identity on a qutrit is PSD and 1/3 >= 0, so its embedding with
+   padding 1/3 is PSD; the one-element Kraus set {I} with c' = c = 1 satisfies the trace-preservation hypotheses *)
+Example C07_example_embed_psd : PSD Qc_OF (3 + 1) (@embed_fast Qc_CR 3 (emb_perm 1) ex_third (@mid Qc_CR)).
+Proof. exact (C07_embed_psd_real Qc_OF 3 1 (emb_perm 1) (emb_inv 1) ex_third mid
+               (C07_embed_perm_bijective_upto3 1 (conj (le_n 1) (le_S _ _ (le_S _ _ (le_n 1))))) ex_psd_id3 ex_third_nonneg). Qed.
+(* ... and a Hermitian PSD qutrit operator with non-zero imaginary part satisfies the hypotheses of C07_embed_psd *)
+Example C07_example_embed_psd_herm :
+  PSD Qc_OF ((3 + 1) + (3 + 1)) (embed Qc_OF (3 + 1) (@embed_fast (CF Qc_OF) 3 (emb_perm 1) (@zof Qc_OF ex_third) ex_herm)).
+Proof. exact (C07_embed_psd Qc_OF 3 1 (emb_perm 1) (emb_inv 1) ex_third ex_herm
+               (C07_embed_perm_bijective_upto3 1 (conj (le_n 1) (le_S _ _ (le_S _ _ (le_n 1))))) ex_herm_psd ex_third_nonneg). Qed.
+Example C07_example_embed_tp :
+  meq 3 3 (@sum_prod Qc_CR 3 [(mid, mid)]) mid /\ @nsum Qc_CR (length [(@mid Qc_CR, @mid Qc_CR)]) (cmul Qc_CR (c1 Qc_CR) (c1 Qc_CR)) = c1 Qc_CR.
+Proof. exact ex_tp_hyps. Qed.
